@@ -204,6 +204,51 @@ func runC14(c *fw.Ctx) {
 			}
 		}
 	}
+	if r.Chance(20) && e.Halted == "" {
+		// the denomination is changed when NOTHING is locked any more but eFUND has been spent: a
+		// purchaser buys exactly one registration fee, spends all of it, governance moves the
+		// denomination, the same purchaser buys again (zero-amount records of the old denomination
+		// are still around)
+		if e.Last == nil {
+			e.Block(time.Second)
+		}
+		obs := e.Last
+		sg := g.signers(obs)
+		if len(obs.Whitelist) > 0 && len(sg) > 0 && obs.TotalLocked.Amount.IsZero() && obs.WrkParams.Denom == obs.EntParams.Denom {
+			if pa, ok := g.acctByAddr(obs.Whitelist[r.Intn(len(obs.Whitelist))]); ok {
+				feeAmt := int64(obs.WrkParams.FeeRegister)
+				e.Block(time.Second, g.plan(pa, nil, &enttypes.MsgUndPurchaseOrder{Purchaser: pa.Addr.String(), Amount: sdk.NewInt64Coin(obs.EntParams.Denom, feeAmt)}))
+				var decs []*TxPlan
+				for _, id := range e.Last.RaisedQ {
+					for _, s := range sg {
+						decs = append(decs, g.plan(s, nil, &enttypes.MsgProcessUndPurchaseOrder{PurchaseOrderId: id, Decision: enttypes.StatusAccepted, Signer: s.Addr.String()}))
+					}
+				}
+				e.Block(time.Second, decs...)
+				e.Block(time.Second)
+				e.Block(time.Second)
+				wreg := g.WrkRegisterMsg(pa)
+				wreg.Owner = pa.Addr.String()
+				e.Block(time.Second, g.plan(pa, sdk.NewCoins(sdk.NewInt64Coin(e.Last.WrkParams.Denom, feeAmt)), wreg))
+				p := e.Last.EntParams
+				p.Denom = []string{lab.Denom2, "other"}[r.Intn(2)]
+				e.Gov("ent denom="+p.Denom+" with everything spent", &enttypes.MsgUpdateParams{Authority: lab.GovAuthority(), Params: p})
+				if e.Halted == "" {
+					e.Block(time.Second, g.plan(pa, nil, &enttypes.MsgUndPurchaseOrder{Purchaser: pa.Addr.String(), Amount: sdk.NewInt64Coin(e.Last.EntParams.Denom, 12345)}))
+					decs = nil
+					for _, id := range e.Last.RaisedQ {
+						for _, s := range g.signers(e.Last) {
+							decs = append(decs, g.plan(s, nil, &enttypes.MsgProcessUndPurchaseOrder{PurchaseOrderId: id, Decision: enttypes.StatusAccepted, Signer: s.Addr.String()}))
+						}
+					}
+					e.Block(time.Second, decs...)
+					e.Block(time.Second)
+					e.Block(time.Second)
+				}
+				c.Count("denom_changes_with_everything_spent", 1)
+			}
+		}
+	}
 	for b := 0; b < nb && e.Halted == ""; {
 		step := r.Range(1, 4)
 		if b > 0 && r.Chance(3) {
